@@ -12,20 +12,23 @@ PROP = 'C03'
 RULE = _c01.RULE + '; for C03 the stored list of every recorded bundle is also replayed by the model after the model-level undo'
 TRUSTED = _c01.TRUSTED
 ASSUMPTIONS = ['ValLaws: proved for the encoded-value model of the tie (see C01; C03_redo_encoded_values_partial)',
-               'proved class (C03_redo_docs_calcs_partial): doc actions, then calc deltas, then the flush, under the computable '
-               'side conditions bundle_ok2 (see C01); the stored list is then the doc actions followed by one update per '
-               'recalculated column',
-               'NOT proved: renames/removals between a calc delta and the flush, per-column flushes (doModifyColumn), lossy '
-               'doc actions; covered by the event-trace tie (same stored list as the engine, replayed by the model to the same '
-               'tables) and by the redo oracle on the implementation',
+               'proved class (C03_redo_stage3_partial, computable side conditions bundle_ok3, see C01; contains the class '
+               'bundle_ok2 of C03_redo_docs_calcs_partial): doc actions, calc deltas, renames after calc deltas, any lossless '
+               'doc action while nothing is pending, the ModifyColumn / conversion delta / per-column flush triples of '
+               'doModifyColumn; the stored list is then the doc actions in order, the stored update of every per-column flush '
+               'right after its ModifyColumn, and one update per recalculated column at the end',
+               'NOT proved: doc actions other than renames while other columns have pending deltas, removals of cells with a '
+               'pending delta, lossy doc actions; covered by the event-trace tie (same stored list as the engine, replayed by '
+               'the model to the same tables) and by the redo oracle on the implementation',
                'formula values after redo that are not written by a stored action rely on recalculation (C05)']
 TECHNIQUE = _c01.TECHNIQUE.replace('undo / whole-history undo oracles', 'undo-then-redo oracle')
-LEVEL_TEXT = ('Kernel-checked for all documents and all bundles of the shape "doc actions, then calc deltas, then flush" passing '
-              'the computable side conditions: after the undo, replaying the stored list gives a document equivalent (tables, '
+LEVEL_TEXT = ('Kernel-checked for all documents and all bundles passing the computable side conditions bundle_ok3 (doc actions, calc '
+              'deltas, renames after calc deltas, doModifyColumn triples incl. type changes, see C01): after the undo, replaying the stored list gives a document equivalent (tables, '
               'schema, row ids, cells up to encoding) to the one the bundle produced; replay of any action list is a congruence '
               'for document equivalence. Model compared with the running engine on recorded event traces; undo-then-redo '
               'oracle on the implementation on every run.')
-LEVEL_NOTE = ('kernel strength; stage 3 interleavings and per-column flushes are _partial (trace refinement + oracle only).')
+LEVEL_NOTE = ('kernel strength; of stage 3, renames and the per-column flushes of doModifyColumn are proved; removals of cells with a '
+              'pending delta and doc actions while other columns are pending are _partial (trace refinement + oracle only).')
 PROOF_TIMEOUT = 900
 
 
@@ -78,6 +81,11 @@ def search(ctx):
       if desc:
         ctx.violation(k['witness'].get('kind') or 'regression', 'regression of %s (%s): %s' % (k['id'], k.get('commit'), desc),
                       k['witness'])
+  # fixed templates, always run: value-dependent (counter) trigger formulas read by a formula column whose id sorts
+  # before / after them; edits and adds of the dependency, an explicit value for the trigger cell, a removed row
+  for kind, what, rep in K.counter_search(PROP, [], 4):
+    ctx.count(('template', kind), nontrivial=True, kind='template')
+    ctx.violation(kind, what, rep)
   res = getattr(ctx, '_k1', None) or K.traced_run(ctx, *_c01.sizes(ctx))
   n = 0
   for issue in res['issues']:
